@@ -76,6 +76,11 @@ chk("C15", "treemc", "exploration",
     "Needs root and a writable global fs.protected_symlinks (restored on exit; a lock serialises concurrent runs). The kernel backend is the reference.",
     "exhaustive enumeration of a finite configuration space (differential against the kernel)", "DESIGN.md 4/C15", thorough=False)
 
+chk("C07", "treemc", "exploration",
+    "Sub-paths are generated from the live content of the worker's own procfs directories (every entry, one level below the link directories, decorated with '.', '..', '', slashes, and magic-links used as components), crossed with flag sets and entry points, and run on both procfs resolvers; oracles from the statement: escapes fail with EXDEV/ELOOP, non-following opens return the link itself, open_follow returns exactly what the kernel opens through the link, creation flags are refused, and the two resolvers agree on every non-empty '..'-free sub-path.",
+    "The live procfs of the worker process defines the input space (entries that depend on addresses or block are excluded and listed in the source); kernel 6.18.",
+    "exhaustive enumeration of a generated finite input space with differential (two resolvers) and statement oracles", "DESIGN.md 4/C07")
+
 not_applicable = [
     {"property_id": "C18", "reason": "relates static artefacts (exported symbols, header, Go/Python binding declarations); there is no behaviour, schedule or state space to enumerate - deciding it is translation validation / static comparison, a different family (DESIGN.md section 5)"},
 ]
